@@ -766,9 +766,15 @@ impl<R: std::io::Read + std::io::Seek, E: crate::byteorder::Endianness> std::io:
                 // if the total samples is unknown in streaminfo,
                 // we have no way to know where the file's end is
                 // (this is a very unusual case)
-                let max_pos: u64 = decoder.total_samples().map(|s| s.get()).ok_or_else(|| {
-                    std::io::Error::new(std::io::ErrorKind::NotSeekable, "total samples not known")
-                })?;
+                let max_pos: u64 = decoder
+                    .total_samples()
+                    .map(|s| s.get() * bytes_per_pcm_frame)
+                    .ok_or_else(|| {
+                        std::io::Error::new(
+                            std::io::ErrorKind::NotSeekable,
+                            "total samples not known",
+                        )
+                    })?;
 
                 match pos.cmp(&0) {
                     Ordering::Less => max_pos.checked_sub(pos.unsigned_abs()).ok_or_else(|| {
